@@ -1021,6 +1021,10 @@ func (rl *Shell) shellKillWord() {
 	rl.viSelectAShellWord()
 
 	_, epos := rl.selection.Pos()
+	if epos < startPos {
+		rl.selection.Reset()
+		return
+	}
 
 	rl.Buffers.Write([]rune((*rl.line)[startPos:epos])...)
 	rl.line.Cut(startPos, epos)
